@@ -17,7 +17,7 @@ RULE = ("cases = h1(data, bins, weights, dtype, keep_missed, dropna) with data a
         "(bin/underflow/overflow/gap/NaN) occupied; distinct by hash of (bins, data, weights, flags)")
 ASSUMPTIONS = [
     "membership is judged on the edges the returned histogram reports (whether those are the right edges is C07)",
-    "weights are small dyadic rationals, so every sum is exact and compared with ==; a general-float class is compared within n*eps",
+    "weights are small dyadic rationals (also as int8 .. float16 arrays), so every sum is exact and compared with ==; general float weights (also magnitudes 2**60 next to 1) are compared bin by bin within n_bin * eps of that bin's own weight sum",
     "numpy itself (asarray, nextafter) is trusted",
 ]
 
